@@ -13,4 +13,16 @@ CHECKS = {
         "design_ref": "DESIGN.md §2 C01",
         "assumptions": ["model: last-writer-wins map with delete-removes-key", "a write that returns an error leaves the model unchanged"],
     },
+    "C02": {
+        "pkg": "storage", "run": "^TestC02", "level": "fault_enumeration", "overlay": "vfs", "tags": ["verifvfs"],
+        "shards": {"quick": 4, "thorough": 16},
+        "technique": "rapid-generated write histories + exhaustive crash-point enumeration over the recorded file-operation log (torn writes, unsynced-suffix loss); recovery compared with flush-boundary states from an independent decoder",
+        "level_text": "For each generated history the engine's real file operations are recorded (AST-instrumented os calls); every prefix of that log, "
+                      "torn variants of each write and the loss of everything after the last completed fsync are materialised as crash images and loaded "
+                      "through the real recovery path; the result must be the state at a flush boundary no older than the last acknowledged Sync/Close, "
+                      "and writes made after recovery must survive a further close+reload. Enumeration is exhaustive per history under the prefix model.",
+        "level_note": "Persistence model: prefix-ordered operations with a torn last write; no reordering between fsyncs, no directory-entry loss. "
+                      "Trusts the vfs shim's op log (pass-through wrapper generated from the tree under test) and the independent block decoder.",
+        "assumptions": ["prefix persistence model with torn last write", "an acknowledged Sync/Close makes all earlier writes durable"],
+    },
 }
